@@ -284,7 +284,10 @@ impl Run {
                 } else {
                     let mut p = Prng::new(op["seed"].as_u64().unwrap_or(0));
                     let cur = catch_unwind(AssertUnwindSafe(|| self.reps[r].as_ref().unwrap().melda.read(None)));
+                    let arrays_only = op.get("arrays").and_then(|v| v.as_bool()).unwrap_or(false);
                     match cur {
+                        Ok(Ok(d)) if arrays_only => gen::mutate_arrays(&mut p, &d, self.universe),
+                        Ok(Err(_)) if arrays_only => gen::mutate_arrays(&mut p, &Map::new(), self.universe),
                         Ok(Ok(d)) if !p.chance(1, 12) => gen::mutate_doc(&mut p, self.gencfg, &d, self.universe),
                         Ok(_) => gen::fresh_doc(&mut p, self.gencfg, self.universe),
                         Err(_) => {
@@ -757,6 +760,63 @@ pub fn random_spec(run: u64, seed: u64, profile: &str) -> Value {
             _ => json!({"op": "commit", "r": r, "seed": p.next()}),
         };
         ops.push(op);
+    }
+    if profile == "arrays" {
+        // concurrent array edits over a tiny identifier universe, frequent synchronisation
+        ops.clear();
+        let nrep = 2 + p.below(2);
+        ops.push(json!({"op": "edit", "r": 0, "seed": p.next(), "arrays": true}));
+        ops.push(json!({"op": "edit", "r": 0, "seed": p.next(), "arrays": true}));
+        ops.push(json!({"op": "commit", "r": 0, "seed": p.next()}));
+        for r in 1..nrep {
+            ops.push(json!({"op": "sync", "r": r, "s": 0}));
+        }
+        let rounds = 2 + p.below(4);
+        for _ in 0..rounds {
+            for r in 0..nrep {
+                let k = 1 + p.below(3);
+                for _ in 0..k {
+                    ops.push(json!({"op": "edit", "r": r, "seed": p.next(), "arrays": true}));
+                    if p.chance(1, 2) {
+                        ops.push(json!({"op": "commit", "r": r, "seed": p.next()}));
+                    }
+                }
+                ops.push(json!({"op": "commit", "r": r, "seed": p.next()}));
+            }
+            for r in 0..nrep {
+                for s2 in 0..nrep {
+                    if r < s2 && p.chance(2, 3) {
+                        ops.push(json!({"op": "sync", "r": r, "s": s2}));
+                    }
+                }
+            }
+            if p.chance(1, 3) {
+                let r = p.below(nrep);
+                ops.push(json!({"op": "resolve", "r": r, "o": p.below(8), "leaf": p.below(4)}));
+            }
+            if p.chance(1, 4) {
+                let r = p.below(nrep);
+                ops.push(json!({"op": "snapshot", "r": r}));
+                ops.push(json!({"op": "commit", "r": r, "seed": p.next()}));
+            }
+            if p.chance(1, 4) {
+                ops.push(json!({"op": "reopen", "r": p.below(nrep)}));
+            }
+        }
+        for _ in 0..2 {
+            for r in 0..nrep {
+                ops.push(json!({"op": "commit", "r": r, "seed": p.next()}));
+            }
+            for r in 0..nrep {
+                for s2 in 0..nrep {
+                    if r < s2 {
+                        ops.push(json!({"op": "sync", "r": r, "s": s2}));
+                    }
+                }
+            }
+        }
+        return json!({"run": run, "replicas": nrep, "pool": *p.pick(&[1usize, 2, 4, 16]), "ops": ops, "label": format!("random:{}:{}", profile, seed),
+            "floats": false, "nasty": false, "universe": 5, "list_seed": if p.chance(1, 2) { json!(p.next()) } else { Value::Null }});
     }
     if profile == "deliver" {
         // two writers build a branching history, a third replica receives it file by file
